@@ -43,6 +43,10 @@ def run_one(m):
             if m.get('expect') == 'quiet':
                 ok = p.returncode == 0
                 notes.append(f'{pid}: exit {p.returncode}')
+            elif m.get('expect') == 'no-alarm':
+                # a behaviour-preserving refactoring: quiet, or stopped on an idiom the check does not model - never a VIOLATION
+                ok = p.returncode in (0, 2) and 'VIOLATION' not in out
+                notes.append(f'{pid}: exit {p.returncode}' + ('' if ok else '\n' + out[-1200:]))
             else:
                 fired = [l for l in out.splitlines() if l.strip().startswith('violation:') and ('rule=' + m['expect_rule']) in l]
                 ok = p.returncode == 1 and bool(fired)
@@ -65,12 +69,19 @@ def main():
             if f.get('exit') != 1 or not f.get('rules'): continue
             ms.append({'id': f'{meta["seed_id"]}:{pid}', 'property': pid, 'expect_rule': f['rules'][0], 'patch': os.path.join(os.path.dirname(mp), 'patch.diff'),
                        'note': 'seeded: ' + meta.get('change', '')[:90]})
+    # behaviour-preserving refactorings written by independent sub-agents (refactors/<id>/): no check may raise an alarm
+    allp = [c['property_id'] for c in json.load(open(os.path.join(VERIF, 'MANIFEST.json')))['checks']]
+    for mp in sorted(glob.glob(os.path.join(VERIF, 'refactors', '*', 'meta.json'))):
+        meta = json.load(open(mp))
+        for pid in allp:
+            ms.append({'id': f'{meta["id"]}:{pid}', 'property': pid, 'expect': 'no-alarm', 'patch': os.path.join(os.path.dirname(mp), 'patch.diff'),
+                       'note': 'refactoring: ' + meta.get('what', '')[:90]})
     if a.only:
         ms = [m for m in ms if m['id'].startswith(a.only) or a.only in (m['property'] if isinstance(m['property'], list) else [m['property']])]
     bad = 0
     with ThreadPoolExecutor(max_workers=a.j) as ex:
         for m, status, note in ex.map(run_one, ms):
-            print(f'{status:5} {m["id"]:28} {m.get("expect_rule", "quiet"):8} {m["note"]}')
+            print(f'{status:5} {m["id"]:28} {m.get("expect_rule", m.get("expect", "quiet")):8} {m["note"]}')
             if status != 'PASS': bad += 1; print('      ' + note.replace('\n', '\n      '))
     print(f'{len(ms) - bad}/{len(ms)} mutants behaved as expected')
     sys.exit(1 if bad else 0)
